@@ -62,9 +62,13 @@ func TestC14(t *testing.T) {
 		}
 	}
 	// multiplexing requested from a plugin that does not advertise it
-	for _, line := range []string{"1|1|tcp|127.0.0.1:1234|grpc|", "1|1|tcp|127.0.0.1:1234|grpc||false"} {
-		add(Cell{Name: "mux requested, plugin line " + line, Host: HostConf{Allowed: []string{"grpc"}, Mux: true, Launch: "cmd", Legacy: 1, ScriptLine: line, TLS: "none"},
-			Plugin: PluginConf{LegacyProto: "grpc"}, Ops: []string{"new", "start", "kill"}}, exp{kind: "start-error", text: "ErrGRPCBrokerMuxNotSupported"})
+	// (every shape a plugin that knows nothing about multiplexing may print: 5 fields as non-Go plugins do,
+	// an empty or absent certificate field, an explicit false; an unparsable flag is a different error)
+	for _, line := range []string{"1|1|tcp|127.0.0.1:1234|grpc", "1|1|unix|/tmp/p.sock|grpc", "1|1|tcp|127.0.0.1:1234|grpc|", "1|1|tcp|127.0.0.1:1234|grpc||false"} {
+		for _, launch := range []string{"cmd", "runner"} {
+			add(Cell{Name: "mux requested (launch=" + launch + "), plugin line " + line, Host: HostConf{Allowed: []string{"grpc"}, Mux: true, Launch: launch, Legacy: 1, ScriptLine: line, TLS: "none"},
+				Plugin: PluginConf{LegacyProto: "grpc"}, Ops: []string{"new", "start", "kill"}}, exp{kind: "start-error", text: "ErrGRPCBrokerMuxNotSupported"})
+		}
 	}
 	// option conflicts
 	add(Cell{Name: "conflict Cmd+Reattach", Host: HostConf{Launch: "cmd", Legacy: 1, Conflict: "cmd+reattach", TLS: "none"}, Plugin: PluginConf{CookieKey: cookieKey, CookieValue: cookieVal, Legacy: 1, LegacyProto: "netrpc"},
